@@ -78,6 +78,16 @@ pub struct SUnord(pub u32);
 pub struct SUnrel(pub u32);
 #[derive(Event, Serialize, Deserialize, Clone, Debug)]
 pub struct STrig(pub u32);
+/// A server trigger whose PAYLOAD holds an entity (`add_mapped_server_trigger`); with `Cfg::trig_map` it carries the
+/// dependent mapped emissions (`SK::Dep`) instead of the event `SDep`.
+#[derive(Event, Serialize, Deserialize, Clone, Debug, MapEntities)]
+pub struct STrigMap(pub u32, #[entities] pub Entity);
+/// A client trigger whose payload holds an entity (`add_mapped_client_trigger`); with `Cfg::trig_map` it carries `CK::Map`.
+#[derive(Event, Serialize, Deserialize, Clone, Debug, MapEntities)]
+pub struct CTrigMap(pub u32, #[entities] pub Entity);
+/// copy of `Cfg::trig_map` for the emitting systems
+#[derive(Resource, Default)]
+pub struct TrigMapMode(pub bool);
 // ---- client -> server events
 #[derive(Event, Serialize, Deserialize, Clone, Debug)]
 pub struct CEv(pub u32);
@@ -195,6 +205,14 @@ pub struct Cfg {
     /// (archetype moves that change nothing replicated), and components are marked changed without a new value
     #[serde(default)]
     pub noise: bool,
+    /// mapped emissions (`SK::Dep`, `CK::Map`) travel as mapped TRIGGERS (`add_mapped_server_trigger` /
+    /// `add_mapped_client_trigger`: the entity is part of the payload) instead of mapped events
+    #[serde(default)]
+    pub trig_map: bool,
+    /// transparent client-side API variants: the replication statistics resource exists (`ClientReplicationStats`), and
+    /// `C` is written through `set_command_fns` with the default functions
+    #[serde(default)]
+    pub client_variants: bool,
 }
 
 impl Default for Cfg {
@@ -230,6 +248,8 @@ impl Default for Cfg {
             custom_fns: 0,
             split_plugins: false,
             noise: false,
+            trig_map: false,
+            client_variants: false,
         }
     }
 }
@@ -336,6 +356,9 @@ pub enum Step {
     ServerRestart,
     /// stop the server (clients are disconnected first); world operations may follow while it is stopped
     ServerStop,
+    /// the backend stops the server while clients are still connected: the library itself despawns the client entities; the
+    /// clients notice the closed connection afterwards
+    ServerStopAbrupt,
     ServerStart,
     JunkAck { client: usize, bytes: Vec<u8> },
     /// the server's game inserts (`on`) or removes an unreplicated component (`sparse`: sparse-set storage) on the entity:
